@@ -311,11 +311,11 @@ def enumerate_cases(ctx):
     L2 = 5 if quick else 6
     ctx.scope('_spikes_in_clusters: all assignment vectors of length <= %d over {0,2,5} x dtypes x every subset of the '
               'requested ids {0,1,2,5,7} (absent ids 1,7; empty request) in a non-sorted order, passed as list; '
-              'array-typed requests (int64/uint16) for length <= 3; requests with a repeated id' % L2)
+              'array-typed requests (int64/uint16) for length <= 3; requests with a repeated id%s' % (L2, ' (quick tier: every third request for length %d)' % L2 if quick else ''))
     reqs = [_unsorted(s, rng) for s in _subsets(REQ)]
     for v in _vectors(ALPHA, L2):
         for dt in DTYPES:
-            for cl in reqs:
+            for cl in (reqs[::3] if quick and len(v) == L2 else reqs):   # quick: a third of the requests for the longest vectors
                 ctx.run('spikes_in_clusters', {'sc': v, 'dtype': dt, 'clusters': cl})
             ctx.run('spikes_in_clusters', {'sc': v, 'dtype': dt, 'clusters': [5, 0, 5]})
             if len(v) <= 3:
@@ -323,6 +323,20 @@ def enumerate_cases(ctx):
                     if cl:
                         for cdt in ('int64', 'uint16'):
                             ctx.run('spikes_in_clusters', {'sc': v, 'dtype': dt, 'clusters': cl, 'clusters_dtype': cdt})
+
+    ctx.scope('_spikes_in_clusters with long, wide-ranged requests (NumPy membership switches algorithm with the size and the '
+              'value range of the request): all vectors of length <= 4 over {0,2,5} x dtypes x requests of 12 absent ids up to the '
+              'top of the dtype range (capped at 2^31-1) plus each of {}, {0}, {5,2}, {0,2,5}, shuffled')
+    for v in _vectors(ALPHA, 4):
+        if not v:
+            continue
+        for dt in DTYPES:
+            top = min(TOP[dt], 2 ** 31 - 1)
+            absent = [1, 7, 9, 11, 40, 41, 300, 1000, 4000, 65000, top - 1, top]
+            for extra in ([], [0], [5, 2], [0, 2, 5]):
+                cl = absent + extra
+                rng.shuffle(cl)
+                ctx.run('spikes_in_clusters', {'sc': v, 'dtype': dt, 'clusters': list(cl)})
 
     ctx.scope('_unique: all vectors of length <= %d over {0,2,5} x dtypes (arrays), lists, None, plus vectors containing 65535 (uint16 top)' % L)
     ctx.run('unique', {'x': [], 'dtype': 'int64', 'as': 'none'})
